@@ -346,7 +346,15 @@ fn run_sequence_inner(steps: &[Step]) -> Result<String, String> {
         }
     }
     let original = insts.pop().unwrap();
-    drop(original);
+    // the instance is finished by an explicit verify() for every other sequence (its verdict is
+    // not the subject here: what it lent and what it was configured with is released all the same)
+    let by_verify = steps.iter().map(|s| s.op as usize + s.inst as usize).sum::<usize>() % 2 == 1;
+    if by_verify {
+        let u = original.take();
+        let _ = catch(move || u.verify());
+    } else {
+        drop(original);
+    }
     let dropped = ledger.dropped();
     if dropped.len() as u32 != total || dropped.values().any(|n| *n != 1) {
         return Err(format!("after teardown {} of {total} values were dropped (each exactly once expected): {dropped:?}", dropped.len()));
@@ -464,6 +472,47 @@ fn unwind_cells(ctx: &vh::explore::Ctx, stats: &mut Stats) {
                     J::obj().set("unwind_cell", cell.as_str()),
                 );
             }
+        }
+    }
+}
+
+/// `no_verify_in_drop()` is a configuration call: whatever the instance has lent so far (also through
+/// its delegation helper) stays alive until the instance itself goes away.
+fn config_call_cells(ctx: &vh::explore::Ctx, stats: &mut Stats) {
+    for through in ["own-chain", "helper", "both"] {
+        let cell = format!("no_verify_in_drop-after-lending/{through}");
+        stats.add("traces_validated_against_impl", 1);
+        stats.add("transitions", 4);
+        stats.add("config_call_cells", 1);
+        let ledger = Arc::new(Ledger::default());
+        let (original, lent_id) = build(&ledger);
+        let r = catch(|| -> Result<(), String> {
+            if through != "helper" {
+                let _: &P1 = original.make_ref(P1::new(&ledger));
+            }
+            if through != "own-chain" {
+                let _: &P1 = <Unimock as L>::prov(&original);
+            }
+            let lent_so_far: Vec<u32> = (1..=ledger.next_id.load(Ordering::SeqCst)).filter(|id| *id != lent_id).collect();
+            let original = original.no_verify_in_drop();
+            let dropped = ledger.dropped();
+            if let Some(id) = lent_so_far.iter().find(|id| dropped.contains_key(id)) {
+                return Err(format!("no_verify_in_drop() dropped the lent value {id} although the instance is still alive"));
+            }
+            drop(original);
+            let total = ledger.next_id.load(Ordering::SeqCst);
+            let dropped = ledger.dropped();
+            if dropped.len() as u32 != total || dropped.values().any(|k| *k != 1) {
+                return Err(format!("after the instance was dropped, {} of {total} values were dropped (each exactly once expected)", dropped.len()));
+            }
+            Ok(())
+        });
+        let r = match r {
+            Ok(r) => r,
+            Err(msg) => Err(format!("panicked: {msg}")),
+        };
+        if let Err(what) = r {
+            ctx.violation("config-call", &format!("{cell}: {what}"), J::obj().set("config_call_cell", cell.as_str()));
         }
     }
 }
@@ -740,6 +789,7 @@ fn main() {
     stats.add("sequential_sequences", stats.get("traces_validated_against_impl"));
     zst_cells(ctx, &mut stats);
     unwind_cells(ctx, &mut stats);
+    config_call_cells(ctx, &mut stats);
     // long chains at the stated bound
     // (thousands of values; small stacks make recursion in lending or releasing visible)
     for (n, stack) in [(1024usize, 64 * 1024usize), (4096, 64 * 1024), (4096, 2 * 1024 * 1024), (9000, 128 * 1024), (20000, 64 * 1024)] {
